@@ -23,7 +23,7 @@ RULE = (
     "(accession + description), 0-3 alternative proteins with mixed decoy prefixes, 0-3 mod_aminoacid_mass at ascending "
     "positions (incl. positions >= 10 and masses of different text length), a per-document set of 1-4 search_score "
     "names with values that avoid the log-transform heuristic, optional hit attributes in all hits or none, with/without "
-    "XML namespace, element order variants; negative variants: Percolator score name, non-XML text. Non-trivial: some "
+    "XML namespace, element order variants; negative variants: Percolator score name, non-XML text, well-formed XML of another schema (mzML-, protXML-like, generic) alone or among valid files. Non-trivial: some "
     "hit has >=2 modifications or mixed target/decoy proteins, or the document has >=2 runs. Distinct = distinct JSON."
 )
 ASSUMPTIONS = [
@@ -42,6 +42,24 @@ PRELUDE_DOC = """<?xml version="1.0" encoding="UTF-8"?>
 <search_score name="oldscore" value="-1.5"/></search_hit></search_result></spectrum_query>
 </msms_run_summary></msms_pipeline_analysis>
 """
+
+
+# well-formed XML of other schemas (what a *.xml glob picks up next to the PepXML files)
+OTHER_XML = [
+    """<?xml version="1.0" encoding="UTF-8"?>
+<mzML xmlns="http://psi.hupo.org/ms/mzml" version="1.1.0"><run id="r1"><spectrumList count="1">
+<spectrum index="0" id="scan=1" defaultArrayLength="0"><cvParam name="ms level" value="2"/></spectrum>
+</spectrumList></run></mzML>
+""",
+    """<?xml version="1.0" encoding="UTF-8"?>
+<protein_summary xmlns="http://regis-web.systemsbiology.net/protXML"><protein_group group_number="1" probability="1.0">
+<protein protein_name="sp|P12345|ALBU_HUMAN" probability="1.0"><peptide peptide_sequence="PEPTIDEK" charge="2"/></protein>
+</protein_group></protein_summary>
+""",
+    """<?xml version="1.0"?>
+<root><item a="1">text</item><item a="2"/></root>
+""",
+]
 
 
 def budget(tier):
@@ -92,7 +110,8 @@ def _case(draw, tier):
         files.append({"runs": runs, "ns": draw(st.booleans())})
     return {"files": files, "score_names": score_names, "opt_attrs": draw(st.booleans()),
             "decoy_prefix": draw(st.sampled_from(["decoy_", "decoy_", "rev_"])), "exclude": draw(st.booleans()),
-            "negative": draw(st.sampled_from(["none"] * 10 + ["percolator", "notxml"]))}
+            "negative": draw(st.sampled_from(["none"] * 10 + ["percolator", "notxml", "otherxml", "otherxml"])),
+            "neg_file": draw(st.integers(0, 1)), "neg_doc": draw(st.integers(0, 2))}
 
 
 def strategy(tier):
@@ -188,17 +207,27 @@ def check(case):
                     mokapot.read_pepxml(str(p), to_df=True)
                 except Exception:  # noqa: BLE001
                     pass
-            p.write_text("this is not xml at all\njust text\n" if (neg == "notxml" and i == 0) else render(f, case))
+            bad = i == case.get("neg_file", 0) % len(case["files"])
+            if neg == "notxml" and i == 0:
+                p.write_text("this is not xml at all\njust text\n")
+            elif neg == "otherxml" and bad:
+                p.write_text(OTHER_XML[case.get("neg_doc", 0) % len(OTHER_XML)])
+            else:
+                p.write_text(render(f, case))
             paths.append(str(p))
         arg = paths if len(paths) > 1 else paths[0]
         if neg != "none":
+            cls = ["negative-" + neg] + (["negative-among-valid-files"] if len(paths) > 1 else [])
             try:
                 mokapot.read_pepxml(arg, to_df=True, decoy_prefix=case.get("decoy_prefix", "decoy_"))
             except ValueError:
-                return {"nontrivial": True, "classes": ["negative-" + neg], "counters": {"negative": 1}}
+                return {"nontrivial": True, "classes": cls, "counters": {"negative": 1}}
             except Exception as e:  # noqa: BLE001
+                if neg == "otherxml":
+                    # the statement asks for "an error"; for well-formed XML of another schema mokapot raises KeyError
+                    return {"nontrivial": True, "classes": cls + ["rejected-by-" + type(e).__name__], "counters": {"negative": 1}}
                 raise Violation("bad-input-wrong-error", f"{neg}: {type(e).__name__}: {e}") from None
-            raise Violation("bad-input-accepted", f"{neg} input was parsed without an error")
+            raise Violation("bad-input-accepted", f"{neg} input ({len(paths)} file(s)) was parsed without an error")
         dp = case.get("decoy_prefix", "decoy_")
         df = guarded(mokapot.read_pepxml, arg, to_df=True, decoy_prefix=dp, sig="read_pepxml")
         exp = expected_rows(case)
